@@ -471,7 +471,7 @@ func GenerateFocus(prof *Profile, seed, run uint64, kinds []string) (*Program, *
 	p := &Program{Profile: prof.Name, Seed: seed, Run: run}
 	g.sharedPool(p, 2000)
 	// sweep operands
-	n := g.R.Range(5, 10)
+	n := g.R.Range(8, 14)
 	for i := 0; i < n; i++ {
 		var lit string
 		k := g.R.Range(-70, 70)
@@ -514,17 +514,24 @@ func GenerateFocus(prof *Profile, seed, run uint64, kinds []string) (*Program, *
 		}
 	}
 	tasks := g.tasksOf(p, g.R.Range(1, 2), 8, use, nil)
-	m1 := uint8(g.R.N(6))
-	m2 := uint8(g.R.N(6))
-	for m2 == m1 {
-		m2 = uint8(g.R.N(6))
+	// three different modes (every pair of them is compared by the
+	// permutation oracle), or two and the first one again
+	perm := []uint8{0, 1, 2, 3, 4, 5}
+	for i := 5; i > 0; i-- {
+		j := g.R.N(i + 1)
+		perm[i], perm[j] = perm[j], perm[i]
 	}
-	if g.R.P(1, 2) {
-		m1, m2 = 0, uint8(g.R.Range(1, 5))
+	modes := []uint8{perm[0], perm[1], perm[2]}
+	if g.R.P(1, 3) {
+		modes = []uint8{0, perm[1], perm[2]}
+		if perm[1] == 0 {
+			modes[1] = perm[0]
+		} else if perm[2] == 0 {
+			modes[2] = perm[0]
+		}
 	}
-	modes := []uint8{m1, m2}
-	if g.R.P(1, 2) {
-		modes = append(modes, m1)
+	if g.R.P(1, 4) {
+		modes[2] = modes[0]
 	}
 	for _, m := range modes {
 		ep := Epoch{Mode: m}
